@@ -21,6 +21,8 @@ def g_value(r: random.Random, hostile=True, allow_empty=True) -> bytes:
         v = r.choice(FILTER_TEXTS)
         return v if (v or allow_empty) else b"x"
     n = r.choice([1, 1, 2, 3, 5, 8, 20])
+    if r.random() < 0.05:
+        n = r.choice([63, 64, 65, 100, 128, 300, 1100])
     if x < 0.55 and hostile:
         out = bytearray()
         for _ in range(n):
